@@ -211,7 +211,10 @@ fn svd_from_vectors<const D: usize>(
         for j in 0..D {
             basis[i][j] = v_t[(i, j)];
         }
-        scales[i] = result.singular_values[i];
+        // The singular value is recomputed as |A v_i| from the right singular vector: for exactly rank-deficient
+        // input (collinear or coincident points) nalgebra's SVD returns an inaccurate largest singular value
+        // (off in the third digit, depending on the orientation of the points), while the vectors are accurate
+        scales[i] = vecs.iter().map(|p| p.dot(&basis[i]).powi(2)).sum::<f64>().sqrt();
     }
 
     SvdBasis {
